@@ -132,8 +132,8 @@ META = {
         'technique': 'Lean 4 proof (state-preservation invariant by induction over actions and histories) + differential of in-process histories against a newly started process',
     },
     'C01': {
-        'text': 'PARTIAL. Proved: obligations over regenerated facts (every built-in prototype shell is initialised; every built-in closure indexes args only below its length guards, 140 closures) and the no-panic theorems of the indexing '
-                'component for all inputs. Explored, not proved: the whole interpreter through a registry sweep (~130k property calls over a value pool), a program generator with a malformed stream, stdin, and the three entry points, '
+        'text': 'PARTIAL. Proved: obligations over regenerated facts (every built-in prototype shell is initialised; every built-in closure indexes args only below its length guards, 140 closures; the single-value type assertions of the interpreter are exactly the 21 reviewed ones, each with its guard or invariant) and the no-panic theorems of the indexing '
+                'component for all inputs. Explored, not proved: the whole interpreter through a registry sweep (~350k calls: every property of every pool member and constant with arity 0-2, extreme arguments, keyword arguments, boundary slices, type-directed consumers of every result), a program generator with a malformed stream, stdin, and the three entry points, '
                 'with recover() as oracle.',
         'note': 'Trusted: Lean kernel, standard axioms, the go/ast extractor, recover() as panic observer. Go runtime fatals and third-party libraries are outside the model; fuel-exhausting programs are discarded.',
         'technique': 'Lean 4 proof over regenerated built-in/arity tables + component no-panic theorems; exhaustive registry sweep and generated/malformed programs for the rest (partial)',
